@@ -220,7 +220,8 @@ def plan(tier):
     q = tier == "quick"
     obs = []
     for vi, v in enumerate(VENDORS):
-        obs.append(dict(name="roundtrip[%s]" % v, func="h_roundtrip", shards=2 if q else 6, timeout=280 if q else 1500, env={"VT_VENDOR": vi}))
+        obs.append(dict(name="roundtrip[%s]" % v, func="h_roundtrip", shards=(8 if v == "routeros" else 2) if q else (16 if v == "routeros" else 6),
+                        timeout=280 if q else 1500, env={"VT_VENDOR": vi}))
     obs.append(dict(name="twin", func="h_twin", shards=1, timeout=100, expect="refuted", env={"VT_VENDOR": 0}))
     return obs
 
